@@ -302,6 +302,8 @@ def run(chk, repo, tier):
     if n6 == 0:
         raise AnalysisError('H6: no DataFrame field serialisation found (Model.initial_individual_estimates moved?)')
 
+    run_h7(chk, repo, in_scope)
+
     # ---------------------------------------------------------------- H5
     mh = repo.cls('pharmpy.workflows.hashing.ModelHash').methods.get('__init__')
     if mh is None:
@@ -346,3 +348,42 @@ def run(chk, repo, tier):
         chk.violation(H5, mh.module.rel, mh.qualname, '_encode(model) reachable with the dataset path in datainfo',
                       'the dataset file path is part of the hashed bytes', line=enc[0].line,
                       witness='the same model read from two directories gets two database keys')
+
+
+def run_h7(chk, repo, in_scope):
+    """to_dict writes every key from the field of the same name"""
+    H7 = chk.rule('H7', 'serialisers write d[key] from the field of that name (key/field agreement)', floor=40)
+    n = 0
+    for c in repo.all_classes():
+        if not in_scope(c.module.name):
+            continue
+        fields = set(init_fields(repo, c))
+        for mname in ('to_dict', '_add_to_dict', '_to_dict'):
+            m = c.methods.get(mname)
+            if m is None:
+                continue
+            pairs = []
+            for node in ast.walk(m.node):
+                if isinstance(node, ast.Assign) and isinstance(node.targets[0], ast.Subscript) \
+                        and isinstance(node.targets[0].slice, ast.Constant) and isinstance(node.targets[0].slice.value, str):
+                    pairs.append((node.targets[0].slice.value, node.value, node))
+                if isinstance(node, ast.Dict):
+                    for k, v in zip(node.keys, node.values):
+                        if isinstance(k, ast.Constant) and isinstance(k.value, str):
+                            pairs.append((k.value, v, node))
+            for key, val, node in pairs:
+                if not (isinstance(val, ast.Attribute) and isinstance(val.value, ast.Name) and val.value.id == 'self'):
+                    continue
+                own = '_' + key
+                if own not in fields and key not in fields:
+                    continue
+                n += 1
+                ok = val.attr.lstrip('_') == key
+                chk.instance(H7, None)
+                if not ok and val.attr in fields | {f_.lstrip('_') for f_ in fields}:
+                    chk.violation(H7, c.module.rel, m.qualname, f"d['{key}'] = self.{val.attr}",
+                                  f'the key `{key}` is written from the field `{val.attr}` although the class has a field for '
+                                  f'`{key}`: that field is never serialised', line=getattr(node, 'lineno', m.node.lineno),
+                                  witness=f'two objects that differ only in {key}: same dictionary, same hash, from_dict(to_dict(x)) != x')
+    if n < 40:
+        raise AnalysisError(f'H7: only {n} key/field pairs found')
